@@ -25,10 +25,11 @@ func init() {
 			"TimerManager.timerLoop goroutine: its two case bodies are run by the simulator (hook H3)", "quic-go: API stub (never run)"},
 		FaultsNotInjected: []string{"per-node clock skew: one synctest bubble has one clock (late timers and held-back nodes are injected instead)",
 			"Byzantine validators in this part (they are injected in the VOTER world)", "certificate rounds: params.ACoCHTFrequency is a constant (32768), unreachable in a grown chain; certificate votes are covered by the VOTEDB/VOTER parts"},
-		Assumptions:    []string{"crash model: the process dies, completed puts and whole batches survive, nothing is torn inside a batch"},
-		QuickBudget:    40 * time.Second, ThoroughBudget: 15 * time.Minute,
+		Assumptions: []string{"crash model: the process dies, completed puts and whole batches survive, nothing is torn inside a batch"},
+		QuickBudget: 40 * time.Second, ThoroughBudget: 15 * time.Minute,
 		MinRuns:        8,
 		Exec:           runC02Net,
+		ExpectedProbes: []string{"node-restarted", "vote-at-index>=2", "round-index-timeout", "block-proposed", "target-height-reached", "catch-up-sync"},
 		PanicClass:     kit.PanicInRepo("engine-panic"),
 	})
 }
@@ -103,14 +104,14 @@ func (h *voteHistory) FrameEmitted(s *Sim, node int, frame []byte) {
 }
 
 func (h *voteHistory) BlockCommitted(s *Sim, node int, block *types.Block, insertErr error) {}
-func (h *voteHistory) BlockImported(s *Sim, node int, block *types.Block, err error)       {}
+func (h *voteHistory) BlockImported(s *Sim, node int, block *types.Block, err error)        {}
 func (h *voteHistory) FrameHandled(s *Sim, node int, frame []byte, corrupted bool, err error, panicked interface{}) {
 	if panicked != nil {
 		panic(panicked)
 	}
 }
-func (h *voteHistory) Restarted(s *Sim, node int) { h.r.Probe("node-restarted") }
-func (h *voteHistory) Step(s *Sim)                {}
+func (h *voteHistory) Restarted(s *Sim, node int)                   { h.r.Probe("node-restarted") }
+func (h *voteHistory) Step(s *Sim)                                  {}
 func (h *voteHistory) Captured(s *Sim, node int, evs []interface{}) {}
 
 // drawConfig draws a NET configuration; swarm style: every run enables a random subset of
